@@ -337,4 +337,11 @@ def rm_no_process_lifetime_results(ctx: Ctx) -> None:
     state_rule(ctx)
 
 
-RULES = [r1_per_class_length_agreement, r2_opcode_emitters, r3_traversal_agreement, r4_state_dependent_width_rechecked, r5_position_bookkeeping, r6_address_advance, rb_binding_agreement, rm_no_process_lifetime_results]
+def ru_names_bound(ctx: Ctx) -> None:
+    """a local read but never bound raises NameError for every input that reaches the statement (shared rule, names.py)"""
+    from ..names import names_rule
+
+    names_rule(ctx)
+
+
+RULES = [r1_per_class_length_agreement, r2_opcode_emitters, r3_traversal_agreement, r4_state_dependent_width_rechecked, r5_position_bookkeeping, r6_address_advance, rb_binding_agreement, rm_no_process_lifetime_results, ru_names_bound]
